@@ -174,6 +174,10 @@ type Driver struct {
 	CrashIsViolation bool
 	// Level for the evidence (default model_checking).
 	Level string
+	// KernelScheduled: the driver runs real processes whose interleaving the harness does not own. Its
+	// oracles are exact (a wrong capture is wrong), but whether a defect manifests can depend on timing:
+	// a signature is then confirmed when one of up to 10 fresh-process replays shows the same signature again.
+	KernelScheduled bool
 	// Serial forces one worker at a time (properties that use the cwd or many processes).
 	Serial bool
 }
@@ -511,7 +515,11 @@ func coordinator(d *Driver, tier string) int {
 			os.WriteFile(file, raw, 0o644)
 			// confirm 5x in a fresh process with identical observation
 			ok := true
-			for k := 0; k < 5 && ok; k++ {
+			tries, hits := 5, 0
+			if d.KernelScheduled {
+				tries = 10
+			}
+			for k := 0; k < tries && ok; k++ {
 				out, _ := exec.Command(self, d.ID, "--tier", tier, "--replay", file).CombinedOutput()
 				var ro replayOut
 				got := false
@@ -523,10 +531,22 @@ func coordinator(d *Driver, tier string) int {
 				if !got && d.CrashIsViolation && cand.Obs == "process crashed or hung" {
 					continue // the replay process died as well: reproduced
 				}
+				if d.KernelScheduled {
+					if got && ro.Sig == cand.Sig {
+						hits++
+						if ro.Obs == cand.Obs || hits >= 2 {
+							break
+						}
+					}
+					continue
+				}
 				if !got || ro.Sig != cand.Sig || ro.Obs != cand.Obs {
 					fmt.Fprintf(os.Stderr, "note: replay %d of an example of %q did not reproduce in a fresh process (got sig %q obs %q; recorded obs %q)\n%s\n", k, cand.Sig, ro.Sig, ro.Obs, cand.Obs, tailStr(string(out), 600))
 					ok = false
 				}
+			}
+			if d.KernelScheduled && hits == 0 {
+				ok = false
 			}
 			if ok {
 				v, confirmed = cand, true
